@@ -174,11 +174,27 @@ def resJson : Res → Json
   | .keyError => Json.mkObj [("err", "KeyError")]
   | .badTarget => Json.mkObj [("err", "badTarget")]
 
-def runOps17 (s : Db Json Json) : List (Op Json Json) → List Json → Db Json Json × List Json
-  | [], acc => (s, acc.reverse)
-  | op :: rest, acc =>
-    match s.step op with
-    | (s', r) => runOps17 s' rest (resJson r :: acc)
+/-- a script step: a construction operation, or a poll = GET /accessories (through the caches)
+    followed by one GET /characteristics for `ids` -/
+inductive Step17 where
+  | con (op : Op Json Json)
+  | poll (ids : List (Nat × Nat))
+
+def step17Of (j : Json) : R Step17 := do
+  match (← getStr j "op") with
+  | "poll" => pure (.poll (← (← getArr j "ids").toList.mapM pairOf))
+  | _ => pure (.con (← op17Of j))
+
+/-- aid / iid / type skeleton of a rendering -/
+def skeletonJson (rs : Option (List (AccRep Json Json))) : Json :=
+  match rs with
+  | none => Json.null
+  | some rs => Json.arr (rs.map fun a => Json.mkObj [
+      ("aid", jnat? a.aid),
+      ("services", Json.arr (a.services.map fun sv => Json.mkObj [
+        ("iid", jnat? sv.iid), ("type", Json.str sv.typ),
+        ("characteristics", Json.arr (sv.chars.map fun c =>
+          Json.mkObj [("iid", jnat? c.iid), ("type", Json.str c.typ)]).toArray)]).toArray)]).toArray
 
 def jpair (p : Option Nat × Option Nat) : Json := Json.arr #[jnat? p.1, jnat? p.2]
 
@@ -228,26 +244,40 @@ def insertNat (x : Nat) : List Nat → List Nat
   | [] => [x]
   | y :: ys => if x ≤ y then x :: y :: ys else y :: insertNat x ys
 
-/-- `{"client": n, "sub": [[aid, iid, on], …]}` (one PUT) or `{"notify": obj}` (a value change of
-    that object); answers one entry per notify: the id the event carries and who receives it -/
+def dedupPairs : List (Nat × Nat) → List (Nat × Nat) → List (Nat × Nat)
+  | [], acc => acc.reverse
+  | p :: ps, acc => if acc.contains p then dedupPairs ps acc else dedupPairs ps (p :: acc)
+
+/-- what each connection receives when the objects `objs` change inside one coalescing window:
+    per connection the pairs (first occurrence order, one entry per pair) it is subscribed to -/
+def deliveries (s : Db Json Json) (topics : Topics) (objs : List Nat) : Json :=
+  let pairs := dedupPairs (objs.filterMap fun o =>
+    match s.eventId o with
+    | some (some aid, some iid) => some (aid, iid)
+    | _ => none) []
+  let clients := (topics.foldl (fun acc t => t.2.foldl (fun acc c => if acc.contains c then acc else insertNat c acc) acc) [])
+  let rows := clients.filterMap fun c =>
+    let got := pairs.filter fun p =>
+      match topics.find? (fun (t : (Nat × Nat) × List Nat) => t.1 == p) with
+      | some t => t.2.contains c
+      | none => false
+    if got.isEmpty then none
+    else some (Json.arr #[Json.num (c : JsonNumber),
+      Json.arr (got.map fun p => Json.arr #[Json.num (p.1 : JsonNumber), Json.num (p.2 : JsonNumber)]).toArray])
+  Json.mkObj [("deliveries", Json.arr rows.toArray)]
+
+/-- `{"client": n, "sub": [[aid, iid, on], …]}` (one PUT), `{"notify": obj}` (a value change of that
+    object, window elapses) or `{"window": [objs]}` (several value changes inside one window) -/
 def runSubs (s : Db Json Json) : List Json → Topics → List Json → R (List Json)
   | [], _, acc => pure acc.reverse
   | st :: rest, topics, acc => do
-    match st.getObjVal? "notify" with
-    | .ok o => do
-      let o ← asNat o
-      let ev := s.eventId o
-      let clients : List Nat := match ev with
-        | some (some aid, some iid) =>
-          match topics.find? (fun (t : (Nat × Nat) × List Nat) => t.1 == (aid, iid)) with
-          | some t => t.2
-          | none => []
-        | _ => []
-      let out := Json.mkObj [
-        ("event", match ev with | none => Json.null | some e => jpair e),
-        ("clients", Json.arr ((clients.foldr insertNat []).map (fun (c : Nat) => Json.num (c : JsonNumber))).toArray)]
-      runSubs s rest topics (out :: acc)
-    | _ => do
+    match st.getObjVal? "notify", st.getObjVal? "window" with
+    | .ok o, _ => do
+      runSubs s rest topics (deliveries s topics [← asNat o] :: acc)
+    | _, .ok (.arr os) => do
+      let objs ← os.toList.mapM asNat
+      runSubs s rest topics (deliveries s topics objs :: acc)
+    | _, _ => do
       let client ← getNat st "client"
       let subs ← getArr st "sub"
       let topics ← subs.toList.foldlM (fun tp q => do
@@ -258,6 +288,26 @@ def runSubs (s : Db Json Json) : List Json → Topics → List Json → R (List 
         | _ => throw "sub: [aid, iid, on] expected") topics
       runSubs s rest topics acc
 
+def entriesJson (r : ReadResp Json) : Json :=
+  Json.arr (r.entries.map fun e =>
+    Json.mkObj <|
+      [("aid", Json.num e.aid), ("iid", Json.num e.iid)] ++
+      (match e.status with | none => [] | some st => [("status", Json.num st)]) ++
+      (match e.value with | none => [] | some v => [("obj", v)])).toArray
+
+def runOps17 (s : Db Json Json) : List Step17 → List Json → Db Json Json × List Json
+  | [], acc => (s, acc.reverse)
+  | .con op :: rest, acc =>
+    match s.step op with
+    | (s', r) => runOps17 s' rest (resJson r :: acc)
+  | .poll ids :: rest, acc =>
+    match s.renderCached true (fun _ => none) with
+    | (rs, s1) =>
+      let r := ((tagValues s1).handleGet ids (fun _ => none)).1
+      let out := Json.mkObj [("poll", Json.mkObj [
+        ("accessories", skeletonJson rs), ("code", Json.num r.code), ("entries", entriesJson r)])]
+      runOps17 s1 rest (out :: acc)
+
 def handle17 (j : Json) : R Json := do
   let isBridge ← getBool j "bridge"
   let mainSpecs ← getArr j "main"
@@ -265,12 +315,12 @@ def handle17 (j : Json) : R Json := do
   -- service); `driver.add_accessory` then gives it aid 1.  A Bridge is always built with aid 1.
   let ctorAid ← if isBridge then pure (some 1) else optNat j "mainAid"
   let defs ← (ctorSpecs ctorAid ++ mainSpecs.toList).mapM svcDefOf
-  let ops ← (← getArr j "ops").toList.mapM op17Of
+  let ops ← (← getArr j "ops").toList.mapM step17Of
   let s0 : Db Json Json := Db.init isBridge defs
-  let (s, results) := runOps17 s0 ops []
-  let rendering := match (s.render false (fun _ => none)).1 with
-    | none => Json.null
-    | some rs => Json.arr (rs.map accRepJson).toArray
+  let (s9, results) := runOps17 s0 ops []
+  -- the final GET /accessories also goes through the caches
+  let (rs, s) := s9.renderCached true (fun _ => none)
+  let rendering := skeletonJson rs
   let resolve := s.listing.map fun (p, o) =>
     let rd := match p with
       | (some aid, some iid) =>
